@@ -25,7 +25,7 @@ import extract  # noqa: E402
 WORK = os.path.join(ROOT, ".work")
 GEN = os.path.join(WORK, "gen")
 REPLAYS = os.path.join(WORK, "replay")
-EVID = os.path.join(ROOT, "evidence")
+EVID = os.environ.get("VERIF_EVIDENCE_DIR") or os.path.join(ROOT, "evidence")   # trial runs on patched trees write elsewhere
 REPLAY_BIN = os.path.join(WORK, "target-replay", "release", "replay")
 KANI_TARGET = os.path.join(WORK, "target-kani")
 CONFIG = json.load(open(os.path.join(ROOT, "checks.json")))
@@ -99,7 +99,8 @@ def build_unit(unit, canary=False, lenient=False):
     # rewrite-rule counts must equal the committed expectation (lost anchor otherwise)
     exp = CONFIG["units"][unit].get("rewrite_counts")
     if exp is not None and not canary and not lenient:
-        got = meta["rewrite_counts"]
+        got = {k: v for k, v in meta["rewrite_counts"].items() if not k.startswith("sub*:")}   # optional call-site renames are not anchors
+        exp = {k: v for k, v in exp.items() if not k.startswith("sub*:")}
         if got != exp:
             diff = {k: (exp.get(k), got.get(k)) for k in set(exp) | set(got) if exp.get(k) != got.get(k)}
             raise Inconclusive("rewrite-rule application counts of unit %s changed (expected,got): %s" % (unit, diff))
@@ -263,7 +264,7 @@ def verify_unit(unit):
         # the code was restructured under a proof hint: drop the hints that lost their anchor and try anyway.
         # Whatever still verifies is proved (hints only help); whatever fails is UNDECIDED, not a violation.
         rs, meta = build_unit(unit, lenient=True)
-        lenient = {"reason": str(e), "dropped": meta.get("dropped_hints", [])}
+        lenient = {"reason": str(e), "dropped": meta.get("dropped_hints", []), "dropped_rewrites": meta.get("dropped_rewrites", [])}
     out = _verify_built(unit, rs, meta)
     out["lenient"] = lenient
     return out
@@ -474,13 +475,21 @@ def check_property(pid, tier, seed):
                                                      "sha256": fn["sha256"][:16], "unit": r["unit"]})
         lenient_units = [r for r in results if r.get("lenient")]
         if lenient_units:
-            cov["lost_anchors"] = [{"unit": r["unit"], "reason": r["lenient"]["reason"], "dropped": r["lenient"]["dropped"]} for r in lenient_units]
-            if relevant_fail:
+            cov["lost_anchors"] = [{"unit": r["unit"], "reason": r["lenient"]["reason"], "dropped_hints": r["lenient"]["dropped"],
+                                    "dropped_rewrites": r["lenient"]["dropped_rewrites"]} for r in lenient_units]
+            # a failed obligation is UNDECIDED only if proof hints / invariants of its own function were dropped;
+            # a rewrite rule that no longer applies leaves the real code verbatim, so the verdict stands
+            hinted = set()
+            for r in lenient_units:
+                for d in r["lenient"]["dropped"]:
+                    hinted.add(d.split(":")[0] if ": " in d else d)
+            undecided = [f for f in relevant_fail if any((f["fn"] or "") == h or h.startswith((f["fn"] or "\0") + ":") or (f["fn"] or "\0") in h for h in hinted)]
+            if undecided:
                 # undecided obligations: only a refutation that replays on the real code counts
                 w = find_witness(pid)
                 if not w:
                     raise Inconclusive("proof hints lost their anchors (%s); %d obligation(s) undecided and no concrete failing input found: %s" %
-                                       ("; ".join(r["lenient"]["reason"] for r in lenient_units)[:300], len(relevant_fail), ", ".join(sorted(set(f["label"] for f in relevant_fail))[:4])))
+                                       ("; ".join(r["lenient"]["reason"] for r in lenient_units)[:300], len(undecided), ", ".join(sorted(set(f["label"] for f in undecided))[:4])))
         failed_labels = set(f["label"] for f in relevant_fail)
         # body obligations: one per verus-checked function (exec fn or lemma) in the units
         body_obl = [(u, fnname) for (u, fnname, ok, _, _) in fn_rows]
@@ -607,6 +616,31 @@ def check_property(pid, tier, seed):
         print("OK property=%s obligations=%d discharged=%d solver_ms=%d wall_s=%.1f" % (pid, obligations, discharged, smt_ms, ev["wall_s"]))
         return 0
     except Inconclusive as e:
+        # the verifier could not decide (unsupported construct, lost anchor, resource limit).  Only a concrete
+        # refutation that replays on the real library may still be reported.
+        w = None
+        try:
+            w = find_witness(pid)
+        except Exception:
+            w = None
+        if w:
+            rp = os.path.join(REPLAYS, "%s-refutation.json" % pid)
+            rj = dict(w[0])
+            rj.update({"property": pid, "label": "concrete refutation (verifier inconclusive: %s)" % str(e)[:300], "source": w[2]})
+            json.dump(rj, open(rp, "w"), indent=1)
+            rc2, lines2, err2 = run_replay(rp, timeout_s=60)
+            if rc2 == 1:
+                ev["violations"] = 1
+                ev["level"] = "other"
+                ev["coverage"] = {"explanation": "verifier INCONCLUSIVE (%s); a concrete failing input was found by %s and replays on the real library" % (e, w[2]),
+                                  "violations": [{"obligation": l[:300], "replay": rp, "counterexample_confirmed_on_real_code": True} for l in w[1][:3]], "partial": cov}
+                ev["wall_s"] = round(time.time() - t0, 2)
+                json.dump(ev, open(os.path.join(EVID, pid + ".json"), "w"), indent=1)
+                print("VIOLATION property=%s replay=%s" % (pid, rp))
+                print("  verifier inconclusive (%s)" % str(e)[:200])
+                for l in w[1][:2]:
+                    print("  " + l[:400])
+                return 1
         ev["level"] = "other"
         ev["coverage"] = {"explanation": "INCONCLUSIVE: %s" % e, "partial": cov}
         ev["wall_s"] = round(time.time() - t0, 2)
@@ -637,14 +671,34 @@ def find_witness(pid):
             if rc == 1 and hits:
                 res = (json.load(open(wp)), hits, "witness library %s" % w)
                 break
-    if res is None:
+    if res is None and pid == "C09":
         sp = os.path.join(REPLAYS, "search-%s.json" % pid)
-        json.dump({"kind": "search", "property": pid, "depth": 4, "budget_ms": 25000, "exclude": excl}, open(sp, "w"))
+        json.dump({"kind": "package_faults"}, open(sp, "w"))
+        rc, lines, err = run_replay(sp, timeout_s=60)
+        hits = [l for l in lines if l.startswith("REPLAY-VIOLATION") and "property=C09 " in l]
+        if rc == 1 and hits:
+            res = ({"kind": "package_faults"}, hits, "fault enumeration on the serialized package (every single-byte fault, truncation, checksum-prefix pairs)")
+    if res is None and pid == "C14":
+        sp = os.path.join(REPLAYS, "search-%s.json" % pid)
+        json.dump({"kind": "uuid_contract"}, open(sp, "w"))
+        rc, lines, err = run_replay(sp, timeout_s=60)
+        hits = [l for l in lines if l.startswith("REPLAY-VIOLATION") and "property=C14 " in l]
+        if rc == 1 and hits:
+            res = ({"kind": "uuid_contract"}, hits, "executable form of the next() contract at boundary counter values")
+    if res is None and pid not in ("C09", "C14"):
+        sp = os.path.join(REPLAYS, "search-%s.json" % pid)
+        q = {"kind": "search", "property": pid, "depth": 4, "budget_ms": 25000, "exclude": excl}
+        # clauses that are the executable form of the PROVED contracts (not of the ideal property) count only
+        # together with a violation of the ideal clause in the same history
+        q["require"] = {"C04": ["match_order.time_priority"], "C19": ["pop.fifo_order"]}.get(pid, [])
+        if pid == "C19":
+            q.update({"target": "queue", "depth": 7})
+        json.dump(q, open(sp, "w"))
         rc, lines, err = run_replay(sp, timeout_s=40)
         found = [l for l in lines if l.startswith("REPLAY-FOUND ")]
         hits = [l for l in lines if l.startswith("REPLAY-VIOLATION") and ("property=%s " % pid) in l]
         if rc == 1 and found and hits:
-            res = (json.loads(found[0][len("REPLAY-FOUND "):]), hits, "bounded search (depth<=4) in replay")
+            res = (json.loads(found[0][len("REPLAY-FOUND "):]), hits, "bounded search in the replay binary (level histories to depth 4 / queue histories to depth 7)")
     _WITNESS_CACHE[pid] = res
     return res
 
